@@ -82,7 +82,7 @@ def payloadLen (p : Bytes) : Nat :=
 def showOut (ssrc pt seq : Nat) (b : Bytes) : String :=
   s!"out ssrc={ssrc} pt={pt} seq={seq} pkt={showHex b}"
 
-/-- flexint: `new n= f= ssrc= fpt= fssrc=` | `w pkt= [reuse=1]`. -/
+/-- flexint: `new n= f= ssrc= fpt= fssrc=` | `w pkt= [reuse=1] [fail=i,j,…]`. -/
 def intComponent : Component where
   σ := Option Icpt
   init := none
@@ -97,20 +97,22 @@ def intComponent : Component where
       | _, _, _, _, _ => (s, ["bad-op"])
     | "w" :: rest =>
       let fs := fields rest
-      match s, (lookup fs "pkt").bind hexBytes with
-      | some st, some p =>
+      match s, (lookup fs "pkt").bind hexBytes, natList ((lookup fs "fail").getD "-") with
+      | some st, some p, some fail =>
         let (st', media, fecs) := st.write p
+        let calls := media.map (fun m => showOut (ssrcOf m) (m.getD 1 0 % 128) (seqOf m) m)
+          ++ fecs.map (fun q => showOut q.ssrc q.pt q.seq q.marshal)
+        let (oks, n, errs) := writeOutcome calls.length fail (payloadLen p)
         let chk :=
           if fecs.isEmpty then [] else
           match st'.enc.cov with
           | some c => specCheck c st.numFec (seqOf (c.media.getD 0 []))
           | none => []
         (some st',
-          media.map (fun m => showOut (ssrcOf m) (m.getD 1 0 % 128) (seqOf m) m)
-          ++ fecs.map (fun q => showOut q.ssrc q.pt q.seq q.marshal)
+          (calls.zip oks).map (fun (l, ok) => l ++ (if ok then " res=ok" else " res=fail"))
           ++ chk
-          ++ [s!"ret n={payloadLen p} err=0"])
-      | _, _ => (s, ["bad-op"])
+          ++ [s!"ret n={n} err={errs}"])
+      | _, _, _ => (s, ["bad-op"])
     | _ => (s, ["bad-op"])
 
 def components : List (String × Component) :=
